@@ -317,6 +317,112 @@ def naming_worker(task):
     return C.rec
 
 
+SHARED_ATTR_SRC = '''
+SCALAR = Attr(default=1)
+LISTS = Attr(default_factory=list)
+
+@spec_class%(deco)s
+class One:
+    x: int = SCALAR
+    y: int = SCALAR
+
+@spec_class%(deco)s
+class Two:
+    values: List[int] = LISTS
+
+@spec_class%(deco)s
+class Three:
+    tags: List[int] = LISTS
+'''
+
+
+def shared_attr_case(bootstrap, order):
+    """one user-declared Attr object used for several attributes / classes: each use is a declaration of its own"""
+    ns = build_undecorated(SHARED_ATTR_SRC % {"deco": "(bootstrap=True)" if bootstrap else ""})
+    probs = []
+    uses = {
+        "One": lambda: (ns["One"]().with_x(5), ["x", "y"]),
+        "Two": lambda: (ns["Two"]().with_value(3), ["values"]),
+        "Three": lambda: (ns["Three"]().with_tag(4), ["tags"]),
+    }
+    try:
+        for name in order:
+            uses[name]()
+        for name in ("One", "Two", "Three"):
+            ns[name]()  # (lazily decorated classes carry their helpers from their first use on)
+        o = ns["One"]().with_x(5)
+        if (o.x, o.y) != (5, 1):
+            probs.append(f"One().with_x(5) gave x={o.x!r}, y={o.y!r}")
+        o = ns["One"]().with_y(6)
+        if (o.x, o.y) != (1, 6):
+            probs.append(f"One().with_y(6) gave x={o.x!r}, y={o.y!r}")
+        for cls, helpers in (("One", ["with_x", "update_x", "transform_x", "reset_x", "with_y", "update_y", "transform_y", "reset_y"]),
+                             ("Two", ["with_values", "with_value", "update_value", "transform_value", "without_value"]),
+                             ("Three", ["with_tags", "with_tag", "update_tag", "transform_tag", "without_tag"])):
+            missing = [h for h in helpers if not callable(getattr(ns[cls], h, None))]
+            if missing:
+                probs.append(f"{cls} lacks {missing}")
+        if ns["Two"]().with_value(3).values != [3]:
+            probs.append("Two().with_value(3) did not append to values")
+        if ns["Three"]().with_tag(4).tags != [4]:
+            probs.append("Three().with_tag(4) did not append to tags")
+        stray = [h for h in ("with_tag", "with_tags") if hasattr(ns["Two"], h)] + [h for h in ("with_value", "with_values") if hasattr(ns["Three"], h)]
+        if stray:
+            probs.append(f"helpers of the other class appeared: {stray}")
+    except Exception as e:
+        probs.append(f"raised {type(e).__name__}: {e!s:.100}")
+    return probs
+
+
+def shared_attr_worker(task):
+    C = Counter()
+    for bootstrap in (False, True):
+        for r in (0, 1, 2, 3):
+            for order in itertools.permutations(("One", "Two", "Three"), r):
+                probs = shared_attr_case(bootstrap, order)
+                C.inc("states")
+                C.inc("transitions", len(order) + 1)
+                C.inc("evaluations")
+                case = {"part": "shared_attr_object", "bootstrap": bootstrap, "order": list(order)}
+                if probs:
+                    C.viol(violation(PROP, {"part": "shared_attr_object", "bootstrap": bootstrap, "first_uses": "+".join(order) or "none",
+                                            "kind": "one_attr_object_declared_twice"}, {"problems": probs[:3]}, case))
+                else:
+                    C.inc("traces_validated_against_impl")
+                    C.nontrivial(("shared_attr", bootstrap, order))
+    C.sample({"part": "shared_attr_object"})
+    return C.rec
+
+
+def naming_pairs_worker(task):
+    """what one class needed (a singular name given away, a fallback name used) must not influence an unrelated class
+    decorated later in the same process"""
+    C = Counter()
+    for first, second in task["pairs"]:
+        src1 = "@spec_class(bootstrap=True)\nclass First:\n" + "".join(f"    {n}: {ann} = {d}\n" for n, ann, d in first)
+        try:
+            build_undecorated(src1)["First"]()
+        except Exception:
+            pass  # (a collision that cannot be resolved raises at decoration: still "a class decorated earlier")
+        order = second
+        body = "class N:\n" + "".join(f"    {n}: {ann} = {d}\n" for n, ann, d in order)
+        ns = build_undecorated(body)
+        attrs = [(n, is_coll(ann)) for n, ann, d in order]
+        case = {"part": "naming_pair", "first": [list(x) for x in first], "attrs": [list(x) for x in order]}
+        sig = {"part": "naming_pair", "names": "+".join(n for n, _, _ in order), "after": "+".join(n for n, _, _ in first)}
+        out, status = judge_class(C, ns, "N", {}, attrs, set(), case, sig, NAMING_SAMPLES)
+        C.inc("states")
+        C.inc("transitions")
+        C.inc("evaluations")
+        for v in out:
+            C.viol(v)
+        if not out:
+            C.inc("traces_validated_against_impl")
+            C.nontrivial(("naming_pair", repr(first), repr(order), status))
+    C.sample({"part": "naming_pair", "pairs": len(task["pairs"])})
+    return C.rec
+
+
 SELECTION_BODY = '''class Sel:
     a: int = 1
     b: List[int] = [1]
@@ -583,7 +689,7 @@ def subclass_collision_worker(task):
 
 def work(task):
     return {"occupant": occupants_worker, "naming": naming_worker, "selection": selection_worker, "inherit": inherit_worker,
-            "subclass_collision": subclass_collision_worker}[task["part"]](task)
+            "subclass_collision": subclass_collision_worker, "naming_pairs": naming_pairs_worker, "shared_attr_object": shared_attr_worker}[task["part"]](task)
 
 
 def run_case(case):
@@ -594,6 +700,13 @@ def run_case(case):
     if case["part"] == "naming":
         sub = naming_worker({"specs": [[tuple(x) for x in case["attrs"]]]})
         return [v for v in sub["violations"] if v["case"]["attrs"] == case["attrs"] and v["case"]["bootstrap"] == case["bootstrap"]]
+    if case["part"] == "shared_attr_object":
+        probs = shared_attr_case(case["bootstrap"], tuple(case["order"]))
+        return [violation(PROP, {"part": "shared_attr_object", "bootstrap": case["bootstrap"], "first_uses": "+".join(case["order"]) or "none",
+                                 "kind": "one_attr_object_declared_twice"}, {"problems": probs[:3]}, case)] if probs else []
+    if case["part"] == "naming_pair":
+        sub = naming_pairs_worker({"pairs": [[[tuple(x) for x in case["first"]], [tuple(x) for x in case["attrs"]]]]})
+        return sub["violations"]
     if case["part"] == "subclass_collision":
         probs = subclass_collision_case(case["coll"], case["bootstrap"], tuple(case["order"]), case["occupant"])
         return [violation(PROP, {"part": "subclass_collision", "coll": case["coll"], "bootstrap": case["bootstrap"],
@@ -614,6 +727,11 @@ def main(run):
     tasks.append({"part": "selection"})
     tasks.append({"part": "inherit"})
     tasks.append({"part": "subclass_collision"})
+    tasks.append({"part": "shared_attr_object"})
+    pairs = [[a, b] for a in NAMING for b in NAMING if a is not b and {n for n, _, _ in a} & {n for n, _, _ in b}]
+    pairs += [[a, [x]] for a in NAMING for x in a if len(a) > 1]  # a class holding just ONE of the attributes of an earlier class
+    for i in range(0, len(pairs), 12):
+        tasks.append({"part": "naming_pairs", "pairs": pairs[i:i + 12]})
     for rec in pmap(work, tasks):
         run.merge(rec)
     run.add(rule=(
